@@ -44,8 +44,8 @@ impl StreamFlags {
     {
         // First byte is currently unused and hard-coded to null.
         writer
-            .write(&[0x00, self.check_method as u8])
-            .map_err(Into::into)
+            .write_all(&[0x00, self.check_method as u8])
+            .map(|()| 2)
     }
 }
 
